@@ -27,6 +27,7 @@ import (
 
 func main() {
 	r := vlib.Start("C11", "exploration")
+	r.ScaleQuick(3) // quick tier: 3x the case counts written at the sections (still well under a minute)
 	r.Rule("meshes are built from closed embedded blocks (boxes, star-shaped spheres, tori; 2D: star-shaped polygons) placed in provably disjoint balls (nesting to depth 6, up to ~200 components, torus holes), then damaged (faces removed/duplicated/flipped, vertices pinched/cracked/split+jittered, Moebius/Klein/disc surfaces, touching tetrahedra and lattice boxes sharing an edge or a vertex); every library answer is compared with an exhaustive definition-level oracle; a case is non-trivial when the reference answer is not the clean one (needs repair / singular / inconsistent / faces actually flipped / >=2 components with nesting); distinct by hash of generator description + damage log")
 	r.Assume("coordinates are finite and free of signed zeros and NaN (those belong to C09)")
 	r.Assume("SingularVertices: vertices incident to two faces with identical vertex sets are skipped when the answer depends on whether such faces count as edge-adjacent (Triangle.SharesEdge is documented as 'exactly one edge')")
